@@ -16,6 +16,7 @@ LEVEL_TEXT = ("Theorems in Coq (Props/C08.v): for EVERY message sequence deliver
               "Byte level: equal byte transcripts of well-formed messages are the same message values, hence equal under every abstraction into terms (C08_equal_byte_transcripts_equal_views, from the marshal/unmarshal round trip of C15). "
               "gmtls/auth.go: for every key type, version and scheme lists for which signer and verifier both succeed they use the same signature type, hash and digest (tables and structure of pickSignatureAlgorithm read from the AST); "
               "4 100 pickSignatureAlgorithm calls and 1 200 digest selections are compared with the model through hooks. "
+              "The catalogue is run on the GMSSL path and on the standard-TLS path (c02f, 002f), the man in the middle under seven (ClientAuth, certificate) configurations, and honest pairs report VerifiedChains (AV). "
               "The attacker catalogue of the property (about 1 800 scripts quick, 15 000 thorough) is executed against real endpoints and outcomes compared with the models.")
 LEVEL_NOTE = ("Idealisation: symbolic signatures / encryption / PRF / hash (free term algebra). Chain verification is an abstract predicate per certificate (C10 owns x509.Verify); "
               "the premises of 'authentication' (CA unforgeability + honest server keys, secrecy discipline of honest parties, network = Dolev-Yao derivation) are explicit hypotheses, "
@@ -39,6 +40,8 @@ ASSUMPTIONS = [
 RULE = ("deterministic catalogue (seed only picks MITM offsets): AS = 26 malicious-server attacks x 2 ECC suites x {client cert, CertificateRequest}; AC = 14 malicious-client attacks x 2 suites x 5 ClientAuth policies; "
         "AM = man in the middle flipping one byte of one handshake message: every offset of every length field and header, first/middle/last byte of every other field + 8 random offsets per message (quick) / every offset (thorough), "
         "x 2 suites x 4 (ClientAuth, client cert) configurations; controls (honest peers, untampered MITM) must complete. Non-trivial: every case; distinct = distinct case text")
+
+_CERT_ALERTS = {42, 43, 44, 45, 46, 48}     # bad_certificate .. unknown_ca
 
 AS_CONTROLS = {"honest", "threecerts"}
 
@@ -86,7 +89,17 @@ def nontrivial(f):
     return True
 
 
+def same(f, io, mo):
+    """AS / AC: the model predicts the outcome class; the alert a victim sent (err a<desc>) is an observation of the
+    implementation only"""
+    if f[0] in ("AS", "AC"):
+        return bool(io) and bool(mo) and io[0] == mo[0]
+    return io == mo
+
+
 def classify(f, io):
+    if f[0] == "AV":
+        return "AV:" + f[2] + ":" + " ".join(io)
     if f[0] == "PA":
         return "PA:" + f[2] + ":" + f[5] + ":" + (io[0] if io else "none")
     if f[0] == "PD":
@@ -126,6 +139,10 @@ def predicate(f, io):
             return (io[0] == "ok"), "control run (honest server) did not complete"
         if io[0] == "ok":
             return False, "client completed although the server script is an attack (%s)" % attack
+        # where the scripted peer saw the victim's alert: a certificate that fails Verify is refused with a certificate alert
+        if len(io) > 1 and io[1].startswith("a") and attack.split("_")[0] in ("untrusted", "expired", "notyet", "wrongname", "mimic"):
+            if int(io[1][1:]) not in _CERT_ALERTS:
+                return False, "certificate attack %s answered with alert %s, not a certificate alert" % (attack, io[1][1:])
         return True, ""
     if op == "AC":
         attack, auth = f[3], int(f[4])
@@ -134,6 +151,23 @@ def predicate(f, io):
             return False, "server with ClientAuth=%d completed although the client script is an attack (%s)" % (auth, attack)
         if io[0] != "ok" and attack in ("honest_cert", "chain_honest"):
             return False, "control run (honest client with certificate) did not complete"
+        return True, ""
+    if op == "AV":
+        # what the endpoints report, stated without the model: both or neither complete; an honest pair completes unless
+        # the ClientAuth policy wants a certificate the client does not send; VerifiedChains is non-empty on the client
+        # iff it completed with verification enabled, on the server iff it completed having verified a client chain
+        vf, auth, cc = f[3] == "1", int(f[4]), f[5] == "1"
+        if len(io) < 4 or (io[0] == "ok") != (io[1] == "ok"):
+            return False, "honest pair: one side completed and the other did not"
+        must = not (auth in (2, 4) and not cc)
+        if (io[0] == "ok") != must:
+            return False, "honest pair %s" % ("did not complete" if must else "completed against the ClientAuth policy")
+        if (io[2] == "1") != (io[0] == "ok" and vf):
+            return False, "client VerifiedChains %s although verification is %s and the handshake %s" % (
+                "non-empty" if io[2] == "1" else "empty", "on" if vf else "off", "completed" if io[0] == "ok" else "failed")
+        if (io[3] == "1") != (io[1] == "ok" and auth >= 3 and cc):
+            return False, "server VerifiedChains %s under ClientAuth=%d, client certificate %s" % (
+                "non-empty" if io[3] == "1" else "empty", auth, "sent" if cc else "not sent")
         return True, ""
     if op == "AN":
         # server-name check: certificates issued by the trusted test CA for <pattern>; the client asks for <servername>
